@@ -95,4 +95,16 @@ TEXT = {
         "level_text": "Bubble unit: a writer (Refresh, miss-fetch, automatic refresh after the interval elapsed on the virtual clock) is parked inside the fake source while 1..8 readers run drawn Get/List/GetResults sequences on cached providers; synctest.Wait decides exactly, without timeouts, whether any reader is blocked; per-reader versions must be monotone, stable providers never missing, records never torn, the coalesced automatic refresh must cost exactly one FetchAll round. Race unit: the same oracles in real time with 2..16 readers and 1..3 writers, built with -race; a race report (exit 66) is a violation.",
         "level_note": "Trusted: the Go race detector and scheduler (interleavings are sampled, not enumerated; races are only seen on executions that happen). No library hook is needed: the writer is parked inside the harness's own ProviderSource.",
     },
+    "C09": {
+        "engine": "h26+h23",
+        "technique": "model-based property testing: rapid-drawn announcement histories against a reference allow-set + recency-list model with exact quiescence in a bubble; bounded-exhaustive differential of the duplicate filter; pubsub attribution with real libp2p hosts",
+        "level_text": "Direct path (h26 bubble): 1..400 announcements / un-cache operations over a CID alphabet larger than the cache, 4 peers, drawn allow filters and address lists; after each announcement a consumer waits and synctest.Wait decides exactly whether something was delivered; compared with a reference model (allow set + recency list of 64) including delivered CID, peer and the addresses the filter specification keeps. Duplicate filter: every update/remove sequence up to length 6 (quick) / 7 (thorough) over 4 symbols at capacities 1..3 against the reference list, through the verif-tag export. Pubsub (h23, three real hosts on loopback): attribution of direct, re-published and self re-published messages; non-delivery is never decided by a timeout.",
+        "level_note": "Trusted: the reference model; gossipsub on loopback (messages that do not arrive before the sentinels are counted inconclusive, never reported). Special-purpose IP ranges are not asserted by the address-filter oracle. Hook: announce/export_verif.go (build tag verif) exposes the unexported LRU.",
+    },
+    "C16": {
+        "engine": "h23",
+        "technique": "property-based testing of call histories in real time (a leaked mutex is invisible to synctest): counting model of the one-slot channel, non-return confirmed by threefold reproduction",
+        "level_text": "Histories of 1..10 calls over Close / Direct / Next / UncacheCid, awaited or started concurrently, on receivers without host, with a host and no topic, and with a host and its own gossipsub topic; a counting model of the one-slot delivery channel determines how many Direct and Next calls must have returned at each point; after Close every pending and four later calls must return (Direct with the closed error, Close with nil), and the watcher goroutine must be gone. A call that has not returned after 2 s is reported only if the same history fails the same way twice more on fresh receivers. Found a mutex leak in the second Close and a nil-subscription crash; both fixed.",
+        "level_note": "Trusted: 2 s of real time as 'promptly' (normal cost: microseconds) together with the threefold reproduction; un-cache calls are ordered against neighbouring announcements rather than raced, so that the model stays deterministic.",
+    },
 }
